@@ -5,7 +5,7 @@ Applies the diff to a scratch worktree of /repo HEAD (never to /repo), confirms 
 runs the demonstration with and without the change, then runs `servcheck -all` on the changed tree."""
 import json, os, re, shutil, subprocess, sys, tempfile, glob
 
-W = "/tmp/scratch/w"
+W = os.environ.get("SEED_W", "/tmp/scratch/w")
 RACE = "-race"
 ENV = dict(os.environ, GOFLAGS="-mod=mod", GOPROXY="off", GOSUMDB="off", GOTOOLCHAIN="local")
 
@@ -77,7 +77,7 @@ def main():
     fails = [l for l in out.splitlines() if l.startswith("--- FAIL")]
     rep["existing_tests_fail"] = [l for l in fails if "TestBasic" not in l and "TestRedirect" not in l]
     # servcheck on the changed tree (before adding demo files)
-    rc, out = sh("/verif/bin/servcheck -all -repo %s -verif /tmp/scratch/v 2>&1" % W, timeout=900)
+    rc, out = sh("/verif/bin/servcheck -all -repo %s -verif %s 2>&1" % (W, W.replace("/lane", "/vlane") if "/lane" in W else "/tmp/scratch/v"), timeout=900)
     viol = {}
     cur = None
     for l in out.splitlines():
